@@ -949,6 +949,23 @@ func fvname(v *ssa.FreeVar) string {
 // target, at any other block one successor suffices). Used for "this happens whenever <allowed conditions> hold":
 // the conditions that are NOT allowed to matter are played by the adversary.
 func reachAgainst(f *ssa.Function, target ssa.Instruction, adversarial func(b *ssa.BasicBlock) bool) bool {
+	return reachGame(f, target, func(b *ssa.BasicBlock) int {
+		if adversarial(b) {
+			return gameAll
+		}
+		return gameAny
+	})
+}
+
+const (
+	gameAny   = -1 // one successor suffices (a condition that is allowed to matter)
+	gameAll   = -2 // every successor must lead to the target (played by the adversary)
+	gameSucc0 = 0  // the target must be reachable through successor 0 (the true edge)
+	gameSucc1 = 1  // ... through successor 1 (the false edge)
+)
+
+// reachGame generalises reachAgainst: mode(b) says how block b's branch is resolved.
+func reachGame(f *ssa.Function, target ssa.Instruction, mode func(b *ssa.BasicBlock) int) bool {
 	win := map[*ssa.BasicBlock]bool{target.Block(): true}
 	for changed := true; changed; {
 		changed = false
@@ -956,15 +973,23 @@ func reachAgainst(f *ssa.Function, target ssa.Instruction, adversarial func(b *s
 			if win[b] || len(b.Succs) == 0 {
 				continue
 			}
-			all, some := true, false
-			for _, s := range b.Succs {
-				if win[s] {
-					some = true
-				} else {
-					all = false
+			ok := false
+			switch m := mode(b); {
+			case len(b.Succs) == 1:
+				ok = win[b.Succs[0]]
+			case m == gameAll:
+				ok = true
+				for _, s := range b.Succs {
+					ok = ok && win[s]
+				}
+			case m == gameSucc0 || m == gameSucc1:
+				ok = m < len(b.Succs) && win[b.Succs[m]]
+			default:
+				for _, s := range b.Succs {
+					ok = ok || win[s]
 				}
 			}
-			if (adversarial(b) && all) || (!adversarial(b) && some) {
+			if ok {
 				win[b] = true
 				changed = true
 			}
